@@ -370,7 +370,7 @@ LEVEL_TEXT = (
     "equivalent mole fraction and the outputs are compared (fluxes, permeate composition, separation factor, curve fluxes / "
     "permeances / separation factor / PSI / selectivity, non-ideal curves, complete trajectories of all 4 process kinds, "
     "extracted measurement points). Tolerances are the conversion's rounding times the measured sensitivity; the pinned "
-    "defects of this class had effects of 7-70 %."
+    "defects of this class had effects of 7-70 %. The public driving-force routine is also called directly with the feed in either basis."
 )
 LEVEL_NOTE = "Trusted: the harness's own mass<->mole conversion (checked against exact rationals by C15's reference); process trajectories compared at 1e-6 relative."
 TECHNIQUE = "runtime monitoring: offline relational checker over recorded twin executions (mass- vs mole-fraction input) of the real entry points"
